@@ -223,9 +223,20 @@ func (s *svSession) returned() bool {
 	}
 }
 
+// svExploreK > 0: instead of the three fixed policies, every choice among runnable goroutines is a
+// path decision - all schedules that differ from lowest-numbered-first at no more than svExploreK
+// scheduling points (blocking operations and, with svExplorePreempt, before every channel / lock
+// operation) are explored (the *_schedules harnesses in sched_serve.go).
+var svExploreK int
+var svExplorePreempt bool
+
 func svStart(srv *Server, hs *http.Server, h http.Handler) *svSession {
 	DebugGoroutines = false
-	vSchedulePolicy(vRange("schedulePolicy", 0, 2)) // thread mode, under each of the three scheduling policies
+	if svExploreK > 0 {
+		vScheduleExplore(svExploreK, svExplorePreempt)
+	} else {
+		vSchedulePolicy(vRange("schedulePolicy", 0, 2)) // thread mode, under each of the three scheduling policies
+	}
 	s := &svSession{c: newSvConn(), srv: srv, done: make(chan struct{})}
 	ctx, md := metadata.NewContext(context.Background())
 	s.md = md
